@@ -4,6 +4,7 @@ import (
 	"encoding/json"
 	"fmt"
 	"math/rand"
+	"regexp"
 	"sort"
 	"strings"
 
@@ -103,6 +104,8 @@ func pick(r *rand.Rand, weights ...int) int {
 	}
 	return 0
 }
+
+var plainCanary = regexp.MustCompile(`^[A-Za-z0-9]+$`)
 
 // build draws one case.
 func build(r *rand.Rand, idx int) *kase {
@@ -294,6 +297,18 @@ func build(r *rand.Rand, idx int) *kase {
 	k.LD.ComposeFiles = []string{"compose.yaml"}
 	if hasInclude {
 		files["inc/included.yaml"] = render("include", "", false)
+		// for some objects of the included file the variable is defined by the included project's own
+		// .env only (not by the parent environment): the value must reach the project all the same
+		var dotenv strings.Builder
+		for _, o := range k.Objects {
+			if o.Placement == "include" && o.Kind == "environment" && o.Defined && plainCanary.MatchString(o.Canary) && r.Intn(2) == 0 {
+				delete(env, o.Var)
+				dotenv.WriteString(o.Var + "=" + o.Canary + "\n")
+			}
+		}
+		if dotenv.Len() > 0 {
+			files["inc/.env"] = dotenv.String()
+		}
 	}
 	if hasOverride {
 		files["override.yaml"] = render("override", "", false)
